@@ -68,6 +68,13 @@ theorem C01_kept_pattern_transitive (a b c : Fin p.d) (hc : p.commuting (p.blk a
     (hab : p.keptE a.val b.val = true) (hcb : p.keptE c.val b.val = true) : p.keptE a.val c.val = true :=
   comm_trans_holds a b c hc hab hcb
 
+omit [LawfulThresholds K] in
+/-- **C01** what a fully diagonalised block keeps together, spelled out: two states are kept together exactly when a chain of states of the block joins them whose
+consecutive levels are equal within `atol` (the model of `_transitive_closure(equal_eigs)`, i.e. of the labels of `connected_components`) -/
+theorem C01_kept_together_iff_chain (a b : Nat) :
+    p.sameLevel a b = true ↔ Relation.TransGen (fun x y => x < p.d ∧ y < p.d ∧ p.closeIn x y = true) a b :=
+  Closure.closure_iff_chain p.closeIn
+
 /-- **C01** masks and denominators agree: inside a block fully diagonalised by the list form, an entry that is not kept is one whose energy difference the
 diagonal solver divides by (`|ΔE| > atol`); "equal" is `|ΔE| ≤ atol`, the complement (D38: it used to be `<`, leaving `|ΔE| = atol` to neither) -/
 theorem C01_masks_and_denominators_agree (a b : Fin p.d) (hblk : p.blk a.val = p.blk b.val) (l : List Nat) (hfd : p.fdEff = .tuple l)
